@@ -1,12 +1,12 @@
 //! C13: deserialisers and validate() are safe on arbitrary input.
 //!
 //! Case kinds (inputs => observed):
-//!   C13.text  <hex of the bytes>  => <ok|err|panic> <bdd|~> <to_string of the accepted value|~> <validate> <evals> <count> <and(true)>
+//!   C13.text  <hex of the bytes>  => <ok|err|panic> <bdd|~> <to_string of the accepted value (x:hex if it contains blanks)|~> <validate> <evals> <count> <and(true)>
 //!   C13.bytes <hex of the bytes>  => <ok|err|panic> <bdd|~> <validate> <evals> <count> <and(true)>
 //!   C13.nodes <|v,l,h|…|>         => <ok|err|panic> <bdd|~> <validate> <evals> <count> <and(true)>
 //! validate: vok | verr | vpanic | vhang | - (not run); the last three are run only for a value that `validate`
 //! (text, bytes) or `from_nodes` (nodes) accepted, each in a watched thread: evals = eval_in on all valuations
-//! (bit string, variable 0 most significant; `panic`, `hang`, `-` if more than 6 variables), count =
+//! (bit string, variable 0 most significant; `panic`, `hang`, `-` if more than 10 variables), count =
 //! exact_cardinality (`-` if more than 16 variables), and(true) = the result of `b.and(&true)`.
 #[path = "../common.rs"]
 mod common;
@@ -51,7 +51,7 @@ fn validate_field(b: &Bdd) -> String {
 /// evals, count, and(true) of an accepted value
 fn accepted_fields(b: &Bdd) -> [String; 3] {
     let n = match catch(|| b.num_vars()) { Some(n) => n as usize, None => return [s("panic"), s("panic"), s("panic")] };
-    let evals = if n <= 6 {
+    let evals = if n <= 10 {
         let b2 = b.clone();
         w_str(watched(move || { let v: String = (0..(1usize << n)).map(|i| if b2.eval_in(&BddValuation::new(val_of_index(n, i))) { '1' } else { '0' }).collect(); v }))
     } else { s("-") };
@@ -80,7 +80,7 @@ fn run_inner(key: &str, a: &[String], out: &mut Out) {
                 Some(Some(b)) => {
                     obs.push(s("ok"));
                     obs.push(fmt_bdd(&b));
-                    if is_text { obs.push(catch(|| b.to_string()).unwrap_or(s("panic"))); }
+                    if is_text { obs.push(catch(|| b.to_string()).map(|x| text_field(&x)).unwrap_or(s("panic"))); }
                     let v = validate_field(&b);
                     let acc = if v == "vok" { accepted_fields(&b) } else { dash3() };
                     obs.push(v);
